@@ -67,6 +67,10 @@ def enrich_repeats(prog, rnd, consts):
                 for _ in range(rnd.randrange(1, 4)):
                     extra.append(rnd.choice(pool))
                 body = [apm.simple(".even")] + extra + [apm.simple(".even")] + visit(st.body, fileno, depth + 1)
+                if rnd.random() < 0.3:
+                    # the body ends in an operand with a postfix '+' (the closing brace may follow on the same line)
+                    body += [apm.simple(".even"), rnd.choice([apm.insn("cmpb", ("mode", 2, rnd.randrange(6)), ("mode", 2, rnd.randrange(6))),
+                                                              apm.insn("mov", ("reg", 1), ("mode", 3, rnd.randrange(6))), apm.insn("tst", ("mode", 2, rnd.randrange(6)))])]
                 st.body = body
             out.append(st)
         return out
@@ -316,6 +320,7 @@ def gen_case(rnd, kind):
             right = apm.Program([apm.SrcFile(f.name, right_stmts + tail_r)], aux_r, {}, base.charset)
     lt, rt = refcheck.render_all(prog), refcheck.render_all(right)
     return {"kind": kind, "caseflip": (rnd.randrange(1, 1 << 30) if kind == "link" and rnd.random() < 0.5 else 0), "left": apm.to_json(prog), "right": apm.to_json(right),
+            "rstyle": (rnd.randrange(1, 1 << 30) if kind == "repeat" and rnd.random() < 0.5 else 0),
             "left_text_preview": lt[prog.files[0].name].splitlines()[:10], "right_text_preview": rt[right.files[0].name].splitlines()[:10]}
 
 
@@ -338,6 +343,9 @@ def run_case(case, cnt=None, root=None):
             # names are case-insensitive within a file and across files alike: every occurrence in a letter case of its own
             sl = apm.Style(random.Random(case["caseflip"]), case=0.5, radix=0.0, brackets=0.0, ws=0.0)
             sr = apm.Style(random.Random(case["caseflip"] + 1), case=0.5, radix=0.0, brackets=0.0, ws=0.0)
+        if case.get("rstyle"):
+            # the structured form laid out differently (blanks, a block closed on the line of its last statement, comments)
+            sl = apm.Style(random.Random(case["rstyle"]), ws=0.4, comments=0.2)
         ol, tl = meta.assemble_prog(left, root, sl)
         orr, tr = meta.assemble_prog(right, root, sr)
         differs = tl != tr
